@@ -337,7 +337,9 @@ def run_history(c):
   if wrapper != 'none':
     # PmapWrapper / PjitWrapper build a new pmap/pjit closure on every call, i.e. a new executable per operation;
     # thousands of them exhaust the process' memory mappings (vm.max_map_count) in the thorough tier
-    jax.clear_caches()
+    _c['sharded_runs'] = _c.get('sharded_runs', 0) + 1
+    if _c['sharded_runs'] % 40 == 0:
+      jax.clear_caches()
   nontrivial = bool(flags['nt'] or flags['overflow_after_partial'] or flags['exact_fill'])
   labels = [f'kind:{kind}', f'wrapper:{wrapper}', f'record:{record}', 'jit' if use_jit else 'eager']
   if flags['overflow_after_partial']:
